@@ -172,7 +172,7 @@ struct VThread {
     bool started;     // has received the baton in the current execution
     jmp_buf jb;
 };
-enum { PK_NONE = 0, PK_READ = 1, PK_WRITE = 2, PK_UNKNOWN = 3 };
+enum { PK_NONE = 0, PK_READ = 1, PK_WRITE = 2, PK_UNKNOWN = 3, PK_READALL = 4 };   // READALL: an unrecorded read of any shared location
 
 VThread T[VS_MAX_THREADS];
 alignas(4096) char g_stacks[VS_MAX_THREADS][1 << 20];
@@ -306,6 +306,8 @@ void run_invariant() {
 bool independent(const VThread& a, const VThread& b) {
     if (a.pend_kind == PK_NONE || b.pend_kind == PK_NONE) return true;
     if (a.pend_kind == PK_UNKNOWN || b.pend_kind == PK_UNKNOWN) return false;
+    if (a.pend_kind == PK_READALL) return b.pend_kind == PK_READ || b.pend_kind == PK_READALL;
+    if (b.pend_kind == PK_READALL) return a.pend_kind == PK_READ;
     bool overlap = a.pend_addr < b.pend_addr + (uintptr_t)b.pend_sz && b.pend_addr < a.pend_addr + (uintptr_t)a.pend_sz;
     if (!overlap) return true;
     return a.pend_kind == PK_READ && b.pend_kind == PK_READ;
@@ -671,9 +673,10 @@ void ghost_point() {
     tl_inrt--;
 }
 void quiet_begin() {
-    // what a quiet section reads is not recorded, so its position relative to every other thread's operations matters:
-    // it starts with a scheduling point whose operation commutes with nothing
-    if (hooks_on()) { tl_inrt++; point(PK_UNKNOWN, 0, 0); tl_inrt--; }
+    // what a quiet section reads is not recorded, so its position relative to every other thread's writes matters:
+    // it starts with a scheduling point whose operation commutes with reads only (quiet sections must not write shared state
+    // except on the way to reporting a violation)
+    if (hooks_on()) { tl_inrt++; point(PK_READALL, 0, 0); tl_inrt--; }
     tl_inrt++;
 }
 void quiet_end() { tl_inrt--; }
@@ -930,8 +933,8 @@ static void process_races(std::vector<PNode>& path) {
     clk.assign((size_t)m * VS_MAX_THREADS, 0);
     Clk vc[VS_MAX_THREADS][VS_MAX_THREADS];
     memset(vc, 0, sizeof vc);
-    int last_unknown[VS_MAX_THREADS], last_any[VS_MAX_THREADS];
-    for (int t = 0; t < VS_MAX_THREADS; t++) last_unknown[t] = last_any[t] = -1;
+    int last_unknown[VS_MAX_THREADS], last_any[VS_MAX_THREADS], last_write_any[VS_MAX_THREADS], last_readall[VS_MAX_THREADS];
+    for (int t = 0; t < VS_MAX_THREADS; t++) last_unknown[t] = last_any[t] = last_write_any[t] = last_readall[t] = -1;
     auto loc = [&](uintptr_t key) -> Loc& {
         unsigned h = (unsigned)(key * 0x9E3779B97F4A7C15ULL >> 40) & (TABN - 1);
         for (;;) {
@@ -944,7 +947,7 @@ static void process_races(std::vector<PNode>& path) {
     for (int j = 0; j < m; j++) {
         const TLog& e = g_tl[j];
         int p = e.tid;
-        int cands[3 * VS_MAX_THREADS + 4];
+        int cands[8 * VS_MAX_THREADS + 8];
         int nc = 0;
         Loc* ls[4];
         int nl = 0;
@@ -959,9 +962,17 @@ static void process_races(std::vector<PNode>& path) {
             }
             for (int t = 0; t < nt; t++)
                 if (t != p && last_unknown[t] >= 0 && nc < (int)(sizeof cands / sizeof cands[0])) cands[nc++] = last_unknown[t];
+            if (e.kind == PK_WRITE)
+                for (int t = 0; t < nt; t++)
+                    if (t != p && last_readall[t] >= 0 && nc < (int)(sizeof cands / sizeof cands[0])) cands[nc++] = last_readall[t];
         } else if (e.kind == PK_UNKNOWN) {
             for (int t = 0; t < nt; t++)
                 if (t != p && last_any[t] >= 0) cands[nc++] = last_any[t];
+        } else if (e.kind == PK_READALL) {
+            for (int t = 0; t < nt; t++) {
+                if (t != p && last_write_any[t] >= 0) cands[nc++] = last_write_any[t];
+                if (t != p && last_unknown[t] >= 0) cands[nc++] = last_unknown[t];
+            }
         }
         for (int c = 0; c < nc; c++) {
             int i = cands[c];
@@ -986,6 +997,8 @@ static void process_races(std::vector<PNode>& path) {
         if (e.kind == PK_WRITE) for (int q = 0; q < nl; q++) { ls[q]->lastw = j; for (int t = 0; t < nt; t++) ls[q]->lastr[t] = -1; }
         if (e.kind == PK_READ) for (int q = 0; q < nl; q++) ls[q]->lastr[p] = j;
         if (e.kind == PK_UNKNOWN) last_unknown[p] = j;
+        if (e.kind == PK_WRITE) last_write_any[p] = j;
+        if (e.kind == PK_READALL) last_readall[p] = j;
         if (e.kind != PK_NONE) last_any[p] = j;
     }
 }
